@@ -23,7 +23,13 @@ from common import run_check
 
 PROP = "C17"
 KEYS = ["a", "b", "c", "d", "e", "f", "g"]
-VALUES = [1, 2, "x", [1, 2], {"k": 1}, 3.5, None, True, "y", 7, 0.5, 1.5, 2.5, 4.5, [], {"k": 2}, {"k": 3}, [3], [4]]
+VALUES = [1, 2, "x", [1, 2], {"k": 1}, 3.5, None, True, "y", 7, 0.5, 1.5, 2.5, 4.5, [], {"k": 2}, {"k": 3}, [3], [4],
+          {"A": ["Ada"], "B": [1, 2]}]
+NESTED = 19        # this value is itself a partition (rendered as one; viewed as the dictionary of its entries)
+
+
+def lit(v):
+    return "InMemoryPartition(%r)" % (VALUES[v],) if v == NESTED else repr(VALUES[v])
 _counter = [0]
 
 
@@ -37,41 +43,53 @@ def gen_scenario(rng, maxlen):
         if kind and len(ks) >= 3 and rng.random() < 0.7:
             own = {k: kind[i % len(kind)] for i, k in enumerate(ks)}                          # pairwise distinct as far as possible
         staging = rng.choice(["mem", "mem", "memdd", "disk", "disk"])
+        if ks and rng.random() < 0.12:
+            own[rng.choice(ks)] = NESTED
         lvl = dict(own=own, staging=staging, from_store=rng.random() < 0.5)
+        if staging in ("mem", "memdd") and len(ks) >= 2 and rng.random() < 0.4:
+            lvl["late"] = ks[len(ks) // 2:]           # entries added to the wrapped dictionary after the key list was asked for
         if staging == "disk" and ks and rng.random() < 0.6:
             # keys assigned more than once while staging; the earlier value is often the final value of another key
             lvl["pre"] = [[rng.choice(ks), rng.choice(list(own.values()))] for _ in range(rng.randint(1, 3))]
         levels.append(lvl)
     backend = rng.choice(["fs", "fscache", "fscache", "memory"])
     mode = rng.choice(["bottom-up", "top-down"])
-    return dict(backend=backend, levels=levels, mode=mode, reret=rng.random() < 0.35)
+    return dict(backend=backend, levels=levels, mode=mode, reret=rng.random() < 0.35, override=rng.random() < 0.25)
 
 
 def render(sc, modname):
     L = ["from twosigma.memento import memento_function",
          "from twosigma.memento.partition import InMemoryPartition",
          "from twosigma.memento.storage_filesystem import OnDiskPartition",
+         "from twosigma.memento.result import KeyOverrideResult",
          "import collections",
          "import vrec", "", ""]
+    ret = "    return KeyOverrideResult(p, 'ov/c17')" if sc.get("override") else "    return p"
     for j, lv in enumerate(sc["levels"]):
         L.append('@memento_function(cluster="c17")')
         L.append("def lv%d():" % j)
         L.append('    vrec.REC.enter("lv%d", 0)' % j)
-        items = ", ".join("%r: %r" % (k, VALUES[v]) for k, v in lv["own"].items())
-        if lv["staging"] == "mem":
-            L.append("    p = InMemoryPartition({%s})" % items)
-        elif lv["staging"] == "memdd":
-            # built from a defaultdict (as in the library's own documentation example)
-            L.append("    p = InMemoryPartition(collections.defaultdict(list, {%s}))" % items)
+        late = lv.get("late", [])
+        items = ", ".join("%r: %s" % (k, lit(v)) for k, v in lv["own"].items() if k not in late)
+        rest = ", ".join("%r: %s" % (k, lit(v)) for k, v in lv["own"].items() if k in late)
+        if lv["staging"] in ("mem", "memdd"):
+            # memdd: built from a defaultdict (as in the library's own documentation example)
+            L.append("    d = %s" % ("{%s}" % items if lv["staging"] == "mem" else "collections.defaultdict(list, {%s})" % items))
+            L.append("    p = InMemoryPartition(d)")
+            if late:
+                # the function looks at the keys so far, then adds entries to the dictionary it wrapped
+                L.append("    p.list_keys()")
+                L.append("    p.list_keys(False)")
+                L.append("    d.update({%s})" % rest)
         else:
             L.append("    p = OnDiskPartition()")
             for k, v in lv.get("pre", []):
-                L.append("    p[%r] = %r" % (k, VALUES[v]))
+                L.append("    p[%r] = %s" % (k, lit(v)))
             for k, v in lv["own"].items():
-                L.append("    p[%r] = %r" % (k, VALUES[v]))
+                L.append("    p[%r] = %s" % (k, lit(v)))
         if j > 0:
             L.append("    p._merge_parent = lv%d()" % (j - 1))
-        L.append("    return p")
+        L.append(ret)
         L += ["", ""]
     if sc["reret"]:
         L.append('@memento_function(cluster="c17")')
@@ -82,11 +100,19 @@ def render(sc, modname):
     return "\n".join(L)
 
 
+def plain(v):
+    """a value as plain data: a partition that is the value of a key is viewed as the dictionary of its entries"""
+    from twosigma.memento.partition import Partition
+    if isinstance(v, Partition):
+        return {k: plain(v.get(k)) for k in sorted(v.list_keys())}
+    return v
+
+
 def view(p):
     try:
         keys = list(p.list_keys())
         own = list(p.list_keys(False))
-        vals = {k: p.get(k) for k in keys}
+        vals = {k: plain(p.get(k)) for k in keys}
         # every key on its own, and keys outside the key list are refused
         try:
             p.get("zz-not-a-key")
@@ -304,6 +330,15 @@ def corpus():
         dict(backend="fs", mode="bottom-up", reret=True, levels=[dict(own={"a": 10, "b": 11, "c": 12, "d": 13, "e": 5, "f": 10, "g": 12}, staging="disk", from_store=True)]),
         dict(backend="fs", mode="bottom-up", reret=True, levels=[dict(own={"a": 4, "b": 15, "c": 16, "d": 4, "e": 15}, staging="disk", from_store=True),
                                                                  dict(own={"f": 3, "g": 17, "a": 18}, staging="disk", from_store=True)]),
+        # entries added to the wrapped dictionary after the function asked for the key list
+        dict(backend="fs", mode="bottom-up", reret=False, levels=[dict(own={"a": 0, "b": 1, "c": 3, "d": 17}, staging="mem", from_store=False, late=["c", "d"])]),
+        dict(backend="fscache", mode="bottom-up", reret=False, levels=[lv({"a": 0, "c": 2}), dict(own={"b": 1, "c": 3, "a": 17}, staging="mem", from_store=True, late=["c", "a"])]),
+        # every level published under one key override; all of them read back from disk in one process
+        dict(backend="fs", mode="bottom-up", reret=False, override=True, levels=[lv({"a": 0, "b": 1}), lv({"b": 2, "c": 3}, "mem", True), lv({"d": 4}, "disk", True)]),
+        dict(backend="fscache", mode="bottom-up", reret=True, override=True, levels=[lv({"a": 10, "b": 11}, "disk"), lv({"a": 12}, "mem", True)]),
+        # a value that is itself a partition, staged on disk / in memory
+        dict(backend="fs", mode="bottom-up", reret=False, levels=[dict(own={"a": NESTED, "b": 1}, staging="disk", from_store=False), lv({"c": NESTED}, "mem", True)]),
+        dict(backend="fscache", mode="bottom-up", reret=True, levels=[dict(own={"a": NESTED}, staging="disk", from_store=True)]),
         # partitions built from a defaultdict, with parent-only keys, with and without memory cache
         dict(backend="fscache", mode="bottom-up", reret=False, levels=[lv({"a": 3, "b": 17, "c": 18}), dict(own={"a": 14, "d": 3}, staging="memdd", from_store=False)]),
         dict(backend="fs", mode="top-down", reret=False, levels=[lv({"a": 3, "b": 17}), dict(own={"c": 14}, staging="memdd", from_store=False), lv({"e": 0}, "memdd")]),
